@@ -42,7 +42,7 @@ def classify(line):
     failing = diag(line["coq"])
     if not failing:
         return None
-    tags = line.get("tags", [])
+    tags = line.get("tags") or []
     if failing == {"handles"}:
         return KEY_SPLIT
     if failing <= {"books-blocksbynode", "lastblock+node-cleanup"} and ("affinity-moved" in tags or "affinity-to-other" in tags):
